@@ -410,7 +410,13 @@ fn run_case(c: &Value, rng: &mut StdRng, rep: &mut Report) {
             let mhz: u32 = rng.gen();
             let integ: u32 = rng.gen();
             if layout >= 2 { ms.power_info = Some(synth::MiscFieldsPowerInfo { processor_max_mhz: mhz, processor_current_mhz: 1, processor_mhz_limit: 2, processor_max_idle_state: 3, processor_current_idle_state: 4 }); }
-            if layout >= 3 { ms.process_integrity_level = Some(integ); ms.time_zone = Some(synth::MiscFieldsTimeZone::default()); }
+            let opt: Vec<&str> = m["opt"].as_array().map(|a| a.iter().map(|x| x.as_str().unwrap()).collect()).unwrap_or_default();
+            if layout >= 3 {
+                ms.time_zone = Some(synth::MiscFieldsTimeZone::default());
+                if opt.contains(&"integrity") { ms.process_integrity_level = Some(integ); }
+                if opt.contains(&"execute") { ms.process_execute_flags = Some(0x31); }
+                if opt.contains(&"protected") { ms.protected_process = Some(1); }
+            }
             if layout >= 4 { let mut b = synth::MiscFieldsBuildString::default(); b.build_string[0] = 0x41; ms.build_strings = Some(b); }
             if layout >= 5 { ms.misc_5 = Some(synth::MiscInfo5Fields { xstate_data: Default::default(), process_cookie: Some(77) }); }
             let d = synth::SynthMinidump::with_endian(endian).add_stream(ms);
@@ -425,6 +431,8 @@ fn run_case(c: &Value, rng: &mut StdRng, rep: &mut Report) {
             let fields: Vec<&str> = c["misc"].as_array().unwrap().iter().map(|x| x.as_str().unwrap()).collect();
             cmp.eq("processor_max_mhz", mi.raw.processor_max_mhz().copied(), if fields.contains(&"power") { Some(mhz) } else { None });
             cmp.eq("process_integrity_level", mi.raw.process_integrity_level().copied(), if fields.contains(&"integrity") { Some(integ) } else { None });
+            cmp.eq("process_execute_flags", mi.raw.process_execute_flags().copied(), if fields.contains(&"execute") { Some(0x31) } else { None });
+            cmp.eq("protected_process", mi.raw.protected_process().copied(), if fields.contains(&"protected") { Some(1) } else { None });
             cmp.eq("build_string", mi.raw.build_string().map(|b| b[0]), if fields.contains(&"build") { Some(0x41) } else { None });
             cmp.eq("process_cookie", mi.raw.process_cookie().copied(), if fields.contains(&"xstate") { Some(77) } else { None });
         }
@@ -511,6 +519,9 @@ fn run_case(c: &Value, rng: &mut StdRng, rep: &mut Report) {
 fn templates(rep: &mut Report) {
     // register values of every thread context as read from the little-endian template, for comparison with the big-endian one
     let mut le_regs: HashMap<(String, usize), Vec<(&'static str, u64, usize)>> = HashMap::new();
+    // the raw (decoded) records of the list streams as read from the little-endian template: the big-endian template is the same model,
+    // so every decoded field must come out the same
+    let mut le_raw: HashMap<String, Vec<(String, String)>> = HashMap::new();
     for flavour in vharness::rich::FLAVOURS {
         for big in [false, true] {
             let bytes = vharness::rich::template_with_exception(flavour, big, 3);
@@ -556,6 +567,30 @@ fn templates(rep: &mut Report) {
                             let bb = b.1.to_be_bytes()[8 - w..].to_vec();
                             if lb != bb { cmp.eq(&format!("context register {} bytes[{}]", l.0, k), format!("{:x?}", bb), format!("{:x?}", lb)); }
                         }
+                    }
+                }
+            }
+            {
+                let mut raws: Vec<(String, String)> = vec![];
+                for (k, t) in tl.threads.iter().enumerate() { raws.push((format!("thread[{}]", k), format!("{:?}", t.raw))); }
+                raws.push(("exception record".into(), format!("{:?} {:?}", e.raw.exception_record, (e.raw.thread_id, e.raw.thread_context.data_size, e.raw.thread_context.rva))));
+                if let Ok(ml) = dump.get_stream::<MinidumpModuleList>() { for (k, m) in ml.iter().enumerate() { raws.push((format!("module[{}]", k), format!("{:?}", m.raw))); } }
+                if let Ok(ul) = dump.get_stream::<MinidumpUnloadedModuleList>() { for (k, m) in ul.iter().enumerate() { raws.push((format!("unloaded[{}]", k), format!("{:?}", m.raw))); } }
+                if let Ok(mi) = dump.get_stream::<MinidumpMemoryInfoList<'_>>() { for (k, m) in mi.iter().enumerate() { raws.push((format!("memory info[{}]", k), format!("{:?}", m.raw))); } }
+                if let Ok(mi) = dump.get_stream::<MinidumpMiscInfo>() {
+                    raws.push(("misc info".into(), format!("{:?}", mi.raw)));
+                    // every accessor of the misc info, each guarded by its own flag
+                    raws.push(("misc info accessors".into(), format!("{:?}", (mi.raw.process_id(), mi.raw.process_create_time(), mi.raw.process_user_time(), mi.raw.process_kernel_time(),
+                        mi.raw.processor_max_mhz(), mi.raw.processor_current_mhz(), mi.raw.process_integrity_level(), mi.raw.process_execute_flags(), mi.raw.protected_process(), mi.raw.time_zone_id()))));
+                }
+                if let Ok(bp) = dump.get_stream::<MinidumpBreakpadInfo>() { raws.push(("breakpad info".into(), format!("{:?}", (bp.dump_thread_id, bp.requesting_thread_id)))); }
+                if let Ok(ti) = dump.get_stream::<MinidumpThreadInfoList>() { for id in [100u32, 101, 102] { if let Some(x) = ti.get_thread_info(id) { raws.push((format!("thread info[{}]", id), format!("{:?}", x.raw))); } } }
+                if !big { le_raw.insert(flavour.to_string(), raws); }
+                else if let Some(le) = le_raw.get(&flavour.to_string()) {
+                    cmp.eq("raw record labels", raws.iter().map(|r| r.0.clone()).collect::<Vec<_>>(), le.iter().map(|r| r.0.clone()).collect::<Vec<_>>());
+                    for (l, b) in le.iter().zip(raws.iter()) {
+                        cmp.rep.class("raw-record-compared-across-byte-orders");
+                        if l.1 != b.1 { cmp.eq(&format!("raw {} across byte orders", l.0), b.1.clone(), l.1.clone()); }
                     }
                 }
             }
